@@ -106,6 +106,53 @@ class CacheMonitor:
         desc = node.dispatcher.handle_request(conn, ('describe', None, None))[2]
         return json.loads(json.dumps(desc)), mspecs
 
+    def run_redescribed(self):
+        """the same client object meets the node again after the node was re-configured: same parameter names, other datatypes.
+        The cache entry is the import of the last message with the datatype of the CURRENT description"""
+        r, rng = self.r, self.rng
+        try:
+            desc, mspecs = self.gen_description()
+        except BaseException:
+            return
+        mn = sorted(desc['modules'])[0]
+        acc = desc['modules'][mn]['accessibles']
+        first = {'_vx_txt': {'type': 'string', 'maxchars': 20}, '_vx_arr': {'type': 'array', 'minlen': 0, 'maxlen': 3, 'members': {'type': 'int', 'min': 0, 'max': 100}},
+                 '_vx_st': {'type': 'struct', 'members': {'a': {'type': 'int', 'min': 0, 'max': 100}}}}
+        second = {'_vx_txt': {'type': 'blob', 'minbytes': 0, 'maxbytes': 10},
+                  '_vx_arr': {'type': 'array', 'minlen': 0, 'maxlen': 3, 'members': {'type': 'scaled', 'scale': 0.5, 'min': 0, 'max': 200}},
+                  '_vx_st': {'type': 'struct', 'members': {'a': {'type': 'scaled', 'scale': 0.1, 'min': 0, 'max': 1000}}}}
+        wires = {'_vx_txt': 'YWJj', '_vx_arr': [2, 4], '_vx_st': {'a': 30}}
+        client = self.SecopClient('fake://x', log=None)
+        client.activate = False
+        for phase, dis in (('first', first), ('second', second)):
+            for an, di in dis.items():
+                acc[an] = {'description': 'redescribed', 'datainfo': di, 'readonly': True}
+            client._init_descriptive_data(json.loads(json.dumps(desc)))
+            order = list(wires)
+            rng.shuffle(order)
+            for an in order:
+                line = f'{rng.choice(["update", "reply"])} {mn}:{an} {json.dumps([wires[an], {}])}'.encode()
+                client.io = ScriptedIO([line])
+                client._running = True
+                client._shutdown.clear()
+                try:
+                    client._SecopClient__rxthread()
+                except BaseException as e:
+                    r.violation('C12/receive-loop-raises', f'{line[:80]!r}: {type(e).__name__}: {e}'[:200], {'sub': 'redescribed', 'phase': phase})
+                    return
+                r.count('redescribed_messages')
+                entry = client.cache.get((mn, client.internalize_name(an)))
+                dt = self.get_datatype(dis[an])
+                want = dt.import_value(wires[an])
+                got = None if entry is None else entry.value
+                if entry is None or entry.readerror is not None or type(got) is not type(want) or got != want:
+                    r.violation(f'C12/cache-entry-differs/after-the-node-was-described-anew/{dis[an]["type"]}',
+                                f'{phase} description, {mn}:{an} = {dis[an]}: message {wires[an]!r} gives the cache entry {got!r}, the import is {want!r}'[:300],
+                                {'sub': 'redescribed', 'phase': phase, 'accessible': an})
+                    return
+        r.count('redescribed_sequences')
+        r.case(('redescribed',), True)
+
     def run_sequence(self):
         r, rng = self.r, self.rng
         try:
@@ -713,6 +760,8 @@ def run_shard(shard):
     cm = CacheMonitor(r, rng)
     for _ in range(shard['n_seq']):
         cm.run_sequence()
+    for _ in range(6):
+        cm.run_redescribed()
     ee = EndToEnd(r, rng)
     for _ in range(shard['n_e2e']):
         ee.run_node()
